@@ -133,3 +133,7 @@ Section Lin.
     (- 2 ^ 31 <= idx_lin gamma o v <= 2 ^ 31 - 1)%Z.
   Proof. apply (interp_int32 _ _ _ interp_lin _ o Hg). Qed.
 End Lin.
+
+Theorem value_lin_incr (gamma o a : R) (i j : Z) :
+  1 < gamma -> -1 < a -> (i < j)%Z -> value_lin gamma o a i < value_lin gamma o a j.
+Proof. apply (interp_value_incr _ _ _ interp_lin). Qed.
